@@ -354,10 +354,13 @@ func buildUpdates(e Elem) (osm.Updates, []kv) {
 	us := osm.Updates{
 		{Index: 0, Version: 2, Timestamp: t0.G, ChangesetID: osm.ChangesetID(e.n(5)), Lat: la.G, Lon: lo.G},
 		{Index: int(e.n(6)), Version: int(e.n(7)), Timestamp: t1.G, Reverse: true},
+		// every optional field of an update at once (a reversed way member whose point moved)
+		{Index: 1, Version: 3, Timestamp: t0.G, ChangesetID: osm.ChangesetID(e.n(4)), Lat: lo.G, Lon: la.G, Reverse: true},
 	}
 	txt := arr([]string{
 		obj(kv{"index", "0"}, kv{"version", "2"}, kv{"timestamp", t0.J}, kv{"changeset", itoa(e.n(5))}, kv{"lat", la.J}, kv{"lon", lo.J}),
 		obj(kv{"reverse", "true"}, kv{"timestamp", t1.J}, kv{"version", itoa(e.n(7))}, kv{"index", itoa(e.n(6))}),
+		obj(kv{"index", "1"}, kv{"version", "3"}, kv{"timestamp", t0.J}, kv{"changeset", itoa(e.n(4))}, kv{"lat", lo.J}, kv{"lon", la.J}, kv{"reverse", "true"}),
 	})
 	return us, []kv{{"updates", txt}}
 }
